@@ -182,7 +182,7 @@ pub fn j_addmono(a: i128, b: i128, out: &mut Local) {
     }
 }
 
-const DERIVE: [&str; 8] = ["neg", "abs", "neg_neg", "add_zero", "sub_self_plus", "mul_1", "mul_neg1", "div_1"];
+const DERIVE: [&str; 18] = ["neg", "abs", "neg_neg", "add_zero", "sub_self_plus", "mul_1", "mul_neg1", "div_1", "max_minus", "saturated_max_minus", "min_plus", "saturated_min_plus", "minus_century", "plus_century", "minus_max", "minus_min", "max_minus_then_plus", "half_twice"];
 /// operands produced by real operations (not by the constructor) must compare like their count: a value whose
 /// representation escaped the canonical form would compare wrongly against the same count built directly
 pub fn j_derived(op: usize, a: i128, out: &mut Local) {
@@ -197,7 +197,19 @@ pub fn j_derived(op: usize, a: i128, out: &mut Local) {
             4 => (da - da) + da,
             5 => da * 1,
             6 => da * -1,
-            _ => da / 1,
+            7 => da / 1,
+            // operands that only another operation can produce: the saturated bounds (MAX carries a full century of
+            // nanoseconds) as minuend / augend, and whole centuries taken off or put on
+            8 => Duration::MAX - da,
+            9 => (Duration::MAX + Duration::from_parts(0, NS_DAY as u64)) - da,
+            10 => Duration::MIN + da,
+            11 => (Duration::MIN - Duration::from_parts(0, NS_DAY as u64)) + da,
+            12 => da - Duration::from_parts(1, 0),
+            13 => da + Duration::from_parts(1, 0),
+            14 => da - Duration::MAX,
+            15 => da - Duration::MIN,
+            16 => (Duration::MAX - da) + da,
+            _ => da / 2 + da / 2,
         };
         let v = alpha(d);
         if !(DMIN..=DMAX).contains(&v) {
@@ -296,7 +308,7 @@ pub fn run(rep: &mut Report) {
     }
     sweep(rep, "c03.unit", n * 9, |i, out| j_unit(dl[(i / 9) as usize], UNITS[(i % 9) as usize], out));
     sweep(rep, "c03.addmono", n * n, |i, out| j_addmono(dl[(i / n) as usize], dl[(i % n) as usize], out));
-    sweep(rep, "c03.derived", n * 8, |i, out| j_derived((i % 8) as usize, dl[(i / 8) as usize], out));
+    sweep(rep, "c03.derived", n * 18, |i, out| j_derived((i % 18) as usize, dl[(i / 18) as usize], out));
 }
 
 pub fn replay(check: &str, a: &[String], out: &mut Local) -> bool {
